@@ -4,10 +4,11 @@
 set -e
 REPO="${VERIF_REPO:-/repo}"
 HERE="$(cd "$(dirname "$0")/.." && pwd)"
+BUILD="${VERIF_BUILD:-$HERE/.build}"
 export CARGO_NET_OFFLINE=true PYO3_PYTHON=/venv/bin/python
-export CARGO_TARGET_DIR="$HERE/.build/rust-target"
+export CARGO_TARGET_DIR="$BUILD/rust-target"
 mkdir -p "$CARGO_TARGET_DIR"
-( cd "$REPO/rust" && cargo build --release --offline --features pyo3/extension-module --quiet )
-cp "$CARGO_TARGET_DIR/release/libsedpack_rs.so" "$HERE/.build/_sedpack_rs.so.tmp"
-mv "$HERE/.build/_sedpack_rs.so.tmp" "$HERE/.build/_sedpack_rs.so"
-echo "built $HERE/.build/_sedpack_rs.so"
+( cd "$REPO/rust" && cargo build --release --offline --features pyo3/extension-module --quiet 2> "$BUILD/cargo-ext.log" ) || { cat "$BUILD/cargo-ext.log"; exit 1; }
+cp "$CARGO_TARGET_DIR/release/libsedpack_rs.so" "$BUILD/_sedpack_rs.so.tmp"
+mv "$BUILD/_sedpack_rs.so.tmp" "$BUILD/_sedpack_rs.so"
+echo "built $BUILD/_sedpack_rs.so"
